@@ -453,12 +453,31 @@ class BuiltinModel:
             return VClass(v.klass)
         if v.klass.startswith("Dict:") or v.klass.startswith("List:"):
             return VFunc(f"{v.klass.split(':')[0]}.{name}", bound=v)
+        if v.klass == "MoneyConverter" and name == "_get_dflt_effective_date":
+            return VFunc("dflt_effective_date", bound=v)
         if v.klass == "Date":
             pass
         raise Unsupported(f"attribute {name} of {v.klass}")
 
     def obj_setattr_fallback(self, obj: VObj, name: str, val: V) -> None:
+        if obj.klass == "MoneyConverter" and name == "_get_dflt_effective_date":
+            given = not (isinstance(val, VFunc) and val.name == "date.today")
+            self.heap.set("MoneyConverter.$dflt_given", obj.t,
+                          z3.BoolVal(given))
+            return
         raise Unsupported(f"store to {obj.klass}.{name}")
+
+    def bi_dflt_effective_date(self, conv):
+        """the configured callable (or date.today): returns some valid date
+        that the ghost fields $dflt_y/m/d name (A1)"""
+        self.ledger("A1: the default effective date callable returns a valid "
+                    "date")
+        h = self.heap
+        y, m, d = (h.get("MoneyConverter.$dflt_y", conv.t),
+                   h.get("MoneyConverter.$dflt_m", conv.t),
+                   h.get("MoneyConverter.$dflt_d", conv.t))
+        self.path.assume(S.valid_date(y, m, d))
+        return VDate(y, m, d)
 
     def coerce_for_field(self, ty, val: V) -> V:
         if isinstance(val, VClass) and val.name in M.TYPE_CODES:
@@ -1048,9 +1067,33 @@ class BuiltinModel:
         raise Unsupported("date.today() (wall clock)")
 
     def bi_date_fromisoformat(self, s):
-        self.ledger("A2: date.fromisoformat validates 'YYYY-MM-DD' "
-                    "(bounded stand-in for the string spellings)")
-        raise Unsupported("date.fromisoformat on symbolic string")
+        """'YYYY-MM-DD' built by an f-string from integers: valid iff the
+        fields have exactly 4-2-2 digits and form a calendar date (A2)"""
+        self.ledger("A2: date.fromisoformat accepts exactly 'YYYY-MM-DD' "
+                    "with a valid calendar date")
+        t = getattr(s, "tmpl", None) if isinstance(s, VStr) else None
+        if t is None:
+            raise Unsupported("date.fromisoformat on an unstructured string")
+        fields, ok = [], True
+        want = [("int", "04d"), ("lit", "-"), ("int", "02d")]
+        if len(t) == 4 and t[3] == ("lit", "-01"):
+            pass
+        elif len(t) == 5 and t[3] == ("lit", "-") and t[4][0] == "int" and \
+                t[4][2] == "02d":
+            pass
+        else:
+            raise Unsupported(f"date string shape {t!r}")
+        for (kind, fmt), part in zip(want, t[:3]):
+            if part[0] != kind or (kind == "int" and part[2] != fmt) or \
+                    (kind == "lit" and part[1] != fmt):
+                raise Unsupported(f"date string shape {t!r}")
+        y, m = t[0][1], t[2][1]
+        d = t[4][1] if len(t) == 5 else z3.IntVal(1)
+        good = z3.And(y >= 0, y <= 9999, m >= 0, m <= 99, d >= 0, d <= 99,
+                      S.valid_date(y, m, d))
+        if not self.path.branch(good):
+            self.I.raise_("ValueError")
+        return VDate(y, m, d)
 
     # Decimal methods -------------------------------------------------------
     def bi_Decimal_adjusted(self, x, n=None):
@@ -1197,7 +1240,11 @@ class BuiltinModel:
             return VStr(S.str_of_num(rv(v), tag_of(v)))
         if isinstance(v, (VInt,)) and spec is not None:
             # f"{x:04d}" etc.
-            return self.fresh_str("fmtint")
+            r = self.fresh_str("fmtint")
+            sp = z3.simplify(spec.t) if isinstance(spec, VStr) else None
+            fmt = sp.as_string() if sp is not None and z3.is_string_value(sp) \
+                else None
+            return VStr(r.t, [("int", v.t, fmt)])
         if isinstance(v, VStr) and spec is not None:
             self.I.raise_("ValueError")
         return self.fresh_str("str")
